@@ -2,7 +2,7 @@
    Model: TV.Core.Flows (flows.rs) and Core.State.update_from_round (state.rs, with the repaired saturation
    behaviour).  "Position" is the position defined by Flow::from_hops: the index of the probe among the
    Awaited/Complete probes of the round (with first_ttl > 1 or failed probes that is not ttl - 1). *)
-From TV Require Import Base.Result Core.Types Core.Flows Core.State Proofs.FlowsProofs Proofs.StateProofs.
+From TV Require Import Base.Result Core.Types Core.Flows Core.State Proofs.FlowsProofs Proofs.StateProofs Proofs.FlowAttr.
 
 (* covers e f: e is at least as long as f and agrees with f at every position where f is known;
    extends e e' := covers e' e *)
@@ -49,6 +49,28 @@ Proof. intros. split; [apply dense_new|cbn; lia]. Qed.
 Theorem c15_unattributed_means_conflict : forall fl f, find_merge fl f = None ->
   Forall (fun e => check (fst e) f = NoMatch) fl.
 Proof. exact find_merge_none. Qed.
+
+(* the last clause: for ANY history of rounds applied to a fresh State, the default flow (id 0) has received every
+   round, and the state recorded under every other identifier is exactly the result of applying, in order, the
+   rounds attributed to that identifier ([attributed]: the id the registry returns for the round's flow) to a fresh
+   flow state - so its round count and hop statistics are those of exactly these rounds (C05 / C10 apply per flow) *)
+Theorem c15_flows_are_their_rounds : forall rs ms mf s' id, st_run (state_new ms mf) rs = Ok s' ->
+  fs_run (flow_state_new ms) (flow_rounds id (state_new ms mf) rs) = Ok (flow_or_new s' id) /\
+  flow_rounds 0 (state_new ms mf) rs = rs.
+Proof.
+  intros rs ms mf s' id H. split; [|exact (flow_rounds_default rs _ _ H)].
+  pose proof (flows_are_their_rounds rs (state_new ms mf) s' id dense_new ltac:(cbn; lia) H) as F.
+  assert (E : flow_or_new (state_new ms mf) id = flow_state_new ms).
+  { unfold flow_or_new, state_new. cbn [st_flows st_max_samples flows_get]. destruct (0 =? id); reflexivity. }
+  rewrite E in F. exact F.
+Qed.
+
+(* one round: flow 0 and the attributed flow receive it, every other flow is untouched *)
+Theorem c15_round_goes_to_default_and_attributed_flow : forall s r s' id, dense (st_registry s) ->
+  update_from_round s r = Ok s' ->
+  if selects id s r then fs_apply (flow_or_new s id) r = Ok (flow_or_new s' id)
+  else flow_or_new s' id = flow_or_new s id.
+Proof. intros s r s' id Hd H. exact (proj2 (update_from_round_per_flow s r s' id Hd H)). Qed.
 
 Example c15_example :
   let a := [1;1;1;1] in let b := [2;2;2;2] in
